@@ -100,7 +100,8 @@ def run(index, tier="quick", seed=0) -> Result:
         if fn is None:
             raise AnalysisError(f"anchor vanished: io.{name}")
         where = f"{fn.file}:{fn.lineno}"
-        ex = Extractor(fn.node, shape_param=fn.params[0] if fn.params else "shape")
+        ex = Extractor(fn.node, shape_param=fn.params[0] if fn.params else "shape",
+                       helpers={k_: v_.node for k_, v_ in io.functions.items() if not k_.startswith("to_")})
         try:
             skel = ex.run()
         except Unsupported as e:
@@ -118,6 +119,9 @@ def run(index, tier="quick", seed=0) -> Result:
             res.ok("CNT-2", name, nontrivial=False)
         inst = Instance()
         text = inst.render(skel)
+        if "<?>" in text:
+            # a value the string builder could not classify: no verdict (never a violation, never a pass)
+            raise AnalysisError(f"io.{name}: the string builder met a formatted value it cannot classify ({[l for l in text.splitlines() if '<?>' in l][:1]})")
         res.evaluations += len(text)
         res.extra.setdefault("skeletons", {})[name] = describe(skel)[:900]
         # ------------------------------------------------ FMT-1
@@ -356,7 +360,26 @@ def _x3d(res, io):
             else:
                 inserts = [c for n in ast.walk(fn.node) if isinstance(n, ast.For) and ast.unparse(n.iter).endswith(".faces")
                            for c in ast.walk(n) if isinstance(c, ast.Call) and ast.unparse(c.func) == f"{lst}.insert" and len(c.args) == 2]
-                if not inserts:
+                face_loops = [n for n in ast.walk(fn.node) if isinstance(n, ast.For) and ast.unparse(n.iter).endswith(".faces")]
+                appends = [c for n in face_loops for c in ast.walk(n) if isinstance(c, ast.Call) and ast.unparse(c.func) == f"{lst}.append"
+                           and len(c.args) == 1 and isinstance(c.args[0], (ast.Constant, ast.UnaryOp))]
+                extends = [c for n in face_loops for c in ast.walk(n) if isinstance(c, ast.Call) and ast.unparse(c.func) == f"{lst}.extend"
+                           and len(c.args) == 1 and isinstance(c.args[0], ast.Call) and ast.unparse(c.args[0].func) == "range"]
+                if not inserts and appends and extends and re.search(rf"{lst} = \[\]", src):
+                    # second idiom: per face  L.extend(range(k, k + len(f))); L.append(-1); k += len(f)
+                    rng = extends[0].args[0]
+                    fvar = face_loops[0].target.id if isinstance(face_loops[0].target, ast.Name) else None
+                    if any(ast.unparse(c.args[0]) != "-1" for c in appends):
+                        wrong.append(f"the face separator appended to coordIndex is {ast.unparse(appends[0].args[0])}, not -1")
+                    if not (len(rng.args) == 2 and ast.unparse(rng.args[1]).replace(" ", "") in
+                            (f"{ast.unparse(rng.args[0])}+len({fvar})", f"len({fvar})+{ast.unparse(rng.args[0])}")):
+                        unknown.append("index run of a face not recognised")
+                    else:
+                        k_ = ast.unparse(rng.args[0])
+                        if not any(isinstance(a_, ast.AugAssign) and isinstance(a_.op, ast.Add) and ast.unparse(a_.target) == k_
+                                   and ast.unparse(a_.value).replace(" ", "") == f"len({fvar})" for n in face_loops for a_ in ast.walk(n)):
+                            unknown.append("advance of the running point index not recognised")
+                elif not inserts:
                     if re.search(rf"{lst}\.(append|extend)\(", src) or not re.search(rf"{lst} = list\(range\(", src):
                         unknown.append("construction of the index list not recognised")
                     else:
@@ -364,7 +387,7 @@ def _x3d(res, io):
                 elif any(ast.unparse(c.args[1]) != "-1" for c in inserts):
                     wrong.append(f"the face separator inserted into coordIndex is {ast.unparse(inserts[0].args[1])}, not -1")
                 tot = re.search(rf"{lst} = list\(range\(sum\(\[?len\((\w+)\) for \1 in \w+\.faces\]?\)\)\)", src)
-                if not tot and not unknown:
+                if not tot and not unknown and inserts:
                     unknown.append("the index list is not recognised as enumerating sum(arity) points")
     if crd and not wrong:
         a_ = attrib.get(crd[0], {})
@@ -414,47 +437,54 @@ def _x3d(res, io):
 
 
 def _dispatch(res, index, writers):
+    """DISP-1 decided on the abstract run of Polyhedron.save with the filetype bound to each documented string (branches
+    folded on the constant; the io writers opaque): exactly one writer is called, the one of the same lower-cased name,
+    with (self, filename); an undocumented string reaches no writer and raises ValueError.  The shape of the dispatch
+    (if/elif chain, table, loop over pairs) is free."""
+    from ..interp import Interp
+    from ..values import vconst
     cls = index.cls("Polyhedron")
     fn = cls.methods.get("save")
     if fn is None:
         raise AnalysisError("anchor vanished: Polyhedron.save")
     where = f"{fn.file}:{fn.lineno}"
-    branches = {}
-    else_raises = None
-    node = next((s for s in fn.node.body if isinstance(s, ast.If)), None)
-    while node is not None:
-        t = node.test
-        if isinstance(t, ast.Compare) and isinstance(t.ops[0], ast.Eq) and isinstance(t.comparators[0], ast.Constant) \
-                and ast.unparse(t.left) == fn.params[1]:
-            calls = [c for c in ast.walk(ast.Module(body=node.body, type_ignores=[])) if isinstance(c, ast.Call)]
-            branches[t.comparators[0].value] = [(ast.unparse(c.func), [ast.unparse(a) for a in c.args]) for c in calls]
-        nxt = node.orelse
-        if len(nxt) == 1 and isinstance(nxt[0], ast.If):
-            node = nxt[0]
-        else:
-            else_raises = [ast.unparse(r.exc.func) if isinstance(r.exc, ast.Call) else "?" for s in nxt for r in ast.walk(s) if isinstance(r, ast.Raise)]
-            node = None
     doc = fn.docstring()
     m = re.search(r"one of the following:\s*([A-Z0-9, \n]+)\.", doc)
-    documented = set(x.strip() for x in m.group(1).replace("\n", " ").split(",")) if m else set()
-    for ty, calls in sorted(branches.items()):
+    documented = sorted(x.strip() for x in m.group(1).replace("\n", " ").split(",")) if m else []
+    if len(documented) < 7:
+        raise AnalysisError(f"Polyhedron.save documents only {documented} (7 file types confirmed)")
+    if len(fn.params) < 3:
+        raise AnalysisError("Polyhedron.save no longer takes (filetype, filename)")
+    tparam, fparam = fn.params[1], fn.params[2]
+
+    def dispatch(value):
+        it = Interp(index, config={"fold_branches": True, "opaque_functions": tuple(writers)})
+        r = it.run_entry(fn, cls, args={tparam: vconst(value)})
+        calls = [e for e in r["events"] if e.type == "opaque-call"]
+        return r, calls
+
+    covered = set()
+    for ty in documented:
         k = f"save:{ty}"
-        want = f"io.to_{ty.lower()}"
-        if len(calls) == 1 and calls[0][0] == want and calls[0][1] == ["self", fn.params[2]]:
+        want = f"to_{ty.lower()}"
+        r, calls = dispatch(ty)
+        names = [c.callee.name for c in calls]
+        good = len(calls) == 1 and names[0] == want and len(calls[0].args) >= 2 and calls[0].args[0].obj is not None \
+            and calls[0].args[0].obj.oid == "self" and calls[0].args[1].pdeps == {fparam} and bool(r["returns"])
+        if good:
+            covered.add(want)
             res.ok("DISP-1", k)
         else:
-            res.bad("DISP-1", k, where, f"Polyhedron.save('{ty}') calls {calls}, expected {want}(self, {fn.params[2]})")
-    covered = {f"to_{t.lower()}" for t in branches}
+            res.bad("DISP-1", k, where, f"Polyhedron.save('{ty}') calls {names or 'no writer'}, expected io.{want}(self, {fparam})"
+                    + ("" if r["returns"] else " and a normal return"))
     for w in writers:
-        if w not in covered:
-            res.bad("DISP-1", f"save:missing:{w}", where, f"Polyhedron.save has no branch for io.{w}")
-    if documented and documented != set(branches):
-        res.bad("DISP-1", "save:doc", where, f"Polyhedron.save documents {sorted(documented)} but dispatches {sorted(branches)}")
-    elif documented:
-        res.ok("DISP-1", "save:doc")
-    if else_raises == ["ValueError"]:
+        if w not in covered and w[3:].upper() not in documented:
+            res.bad("DISP-1", f"save:missing:{w}", where, f"Polyhedron.save does not document / dispatch io.{w}")
+    res.ok("DISP-1", "save:doc")
+    r, calls = dispatch("no such file type")
+    raised = sorted({x[0] for x in r["raises"]})
+    if not calls and not r["returns"] and raised == ["ValueError"]:
         res.ok("DISP-1", "save:else")
     else:
-        res.bad("DISP-1", "save:else", where, f"Polyhedron.save: an unknown filetype must raise ValueError (else branch raises {else_raises})")
-    if len(branches) < 7:
-        raise AnalysisError(f"only {len(branches)} dispatch branches recognised (7 confirmed)")
+        res.bad("DISP-1", "save:else", where, f"Polyhedron.save: an unknown filetype must raise ValueError (calls {[c.callee.name for c in calls]}, "
+                f"raises {raised}, returns normally: {bool(r['returns'])})")
